@@ -2,26 +2,41 @@ package harness
 
 import (
 	"fmt"
-	"math"
 	"testing"
 
 	"gorgonia.org/tensor"
 )
 
 func TestProbe(t *testing.T) {
-	nan := float32(math.NaN())
-	_ = nan
-	for _, c := range [][2]tensor.Tensor{
-		{mkT(nil, []float32{0}), mkT(nil, []float32{0})},
-		{mkT([]int{1}, []float32{0}), mkT([]int{1}, []float32{0})},
-		{mkT([]int{2}, []float32{0, 1}), mkT([]int{2}, []float32{0, 0})},
-		{mkT([]int{2}, []float32{0, 1}), mkT(nil, []float32{0})},
-		{mkT(nil, []float32{0}), mkT([]int{2}, []float32{0, 0})},
-		{mkT([]int{2}, []float64{0, 1}), mkT([]int{2}, []float64{0, 0})},
-		{mkT(nil, []float64{0}), mkT(nil, []float64{0})},
-		{mkT(nil, []float32{-1}), mkT(nil, []float32{0})},
-	} {
-		r := runOp("Div", mkNode("Div", nil, nil), []tensor.Tensor{c[0], c[1]})
-		fmt.Println(descT(c[0]), descT(c[1]), "->", r)
+	for _, op := range []string{"ReduceMax", "ReduceMin"} {
+		bad := map[string][]string{}
+		tot := map[string]int{}
+		for _, sh := range allShapes(5, 3) {
+			r := len(sh)
+			if r < 3 {
+				continue
+			}
+			for a := 0; a < r; a++ {
+				c := c09Case{op: op, node: mkNode(op, nil, nil, attrInts("axes", int64(a)), attrI("keepdims", 0)), x: rangeT(tensor.Float32, sh), axes: []int{a}, keepdims: false}
+				res := runOp(op, c.node, []tensor.Tensor{cloneT(c.x)})
+				v := c09Judge(c, res)
+				k := fmt.Sprintf("rank%d axis%d", r, a)
+				tot[k]++
+				if v != "" {
+					kind := "wrong"
+					if res.panicked {
+						kind = "panic"
+					}
+					bad[k+" "+kind] = append(bad[k+" "+kind], fmt.Sprint(sh))
+				}
+			}
+		}
+		for k, v := range bad {
+			n := len(v)
+			if n > 12 {
+				v = v[:12]
+			}
+			fmt.Println(op, k, n, "of", tot[k[:11]], v)
+		}
 	}
 }
